@@ -343,7 +343,7 @@ def run_free(job):
     argv = prep["argv"](d, workers)
     env = dict(os.environ)
     try:
-        r = subprocess.run([common.PY, "-m", "cutadapt"] + argv, stdout=subprocess.PIPE, stderr=subprocess.PIPE, timeout=60, env=env)
+        r = common.run_group([common.PY, "-m", "cutadapt"] + argv, timeout=60, env=env)
     except subprocess.TimeoutExpired:
         return dict(job=job, failure="real multi-core process did not terminate within 60 s")
     s = mcharness.RunSummary()
